@@ -105,6 +105,27 @@ ASSUMPTIONS = [
     "set operators and set.union/copy return new sets (Python semantics)",
 ]
 
+EXPLANATION += (
+    "  R17.8 (rules/c17_codomain.py) decides the codomain of And, Or, "
+    "_And.simplify and _Or.simplify on the returned expressions and the path "
+    "condition of each return, without interpreting any other test: every "
+    "returned value is the result of the one simplify_exprs call (directly or "
+    "through locals bound only to it), the term itself (trivially "
+    "equivalent), or a constant TRUE/FALSE on a path on which some test "
+    "found something to BE that constant (`x is TRUE`, `x == TRUE`, `TRUE in "
+    "xs`, positively).  A constant returned on any other path is a violation: "
+    "the paper argument covers only what the combinator produces, so "
+    "`_Or.simplify` may answer TRUE only because an operand simplified to "
+    "TRUE - not because the pivots of the alternatives cover the table "
+    "(pivots are a per-variable projection that descends into nested "
+    "conjunctions: `(x==a & y==a) | (x==b & y==b)` covers x and y and is "
+    "false for x=a, y=b), a size limit was hit or the table is empty.  With "
+    "R17.8 deciding the returns, R17.2 only requires that there is exactly "
+    "one simplify_exprs call and reads its arguments.  Over-approximation: a "
+    "sound extra short cut that does not compare anything with the constant "
+    "it returns (none today) would be reported; any other returned "
+    "expression is an analysis error.")
+
 
 # ---------------------------------------------------------------------------
 # helpers
@@ -317,10 +338,11 @@ def _combinator_call(mod, qual, roles):
   fn = mod.func(qual)
   _no_shadow(fn, {"TRUE", "FALSE", "_And", "_Or", "simplify_exprs"})
   calls = calls_in(fn, name="simplify_exprs")
-  rets = [n for n in walk_no_nested(fn) if isinstance(n, ast.Return)]
-  if len(calls) != 1 or len(rets) != 1 or rets[0].value is not calls[0]:
+  # which of its returns hand out the call's result is R17.8's question
+  # (rules/c17_codomain.py); here only the arguments of the one call matter
+  if len(calls) != 1:
     raise AnalysisError(
-        f"{qual}: expected a single `return simplify_exprs(...)`")
+        f"{qual}: expected a single simplify_exprs(...) call, found {len(calls)}")
   call = calls[0]
   if any(isinstance(a, ast.Starred) for a in call.args) or \
       any(k.arg is None for k in call.keywords):
